@@ -70,7 +70,6 @@ SghOK(e) ==
                  /\ Canonical(g.addr) /\ g.addr # ZeroW
             ELSE /\ e.after[2 * v + 1] = e.before[2 * v + 1]          \* everything else untouched
                  /\ e.after[2 * v + 2] = e.before[2 * v + 2]
-       /\ Cardinality({ G[v].addr : v \in T }) = Cardinality(T)     \* one stub per vector
 
 (* records: type 1 = general handler called <<1, idx, hasErr, err, ip, cs, flags, sp, ss, nCalls>>,
             type 2 = execution resumed <<2, rsp, rflags, nCalls, resumeIp, ...>> *)
